@@ -348,7 +348,7 @@ pub fn generate_c10(tier: &str, rng: &mut Rng) -> Vec<String> {
             v.push(format!("lv {t} {l} {} {}", off % 16, hex(&vec![0xffu8; hdr + 4 * sz.max(1)])));
         }
         for n in 0..=hdr + 1 { v.push(format!("lv {t} {l} 0 {}", hex(&rng.bytes(n)))); }
-        let reps = if thorough { 600 } else { 12 };
+        let reps = if thorough { 2_000 } else { 12 };
         for _ in 0..reps {
             let off = rng.below(16) as usize;
             // choose an offset that aligns the data region most of the time
@@ -375,7 +375,7 @@ pub fn generate_c09(tier: &str, rng: &mut Rng) -> Vec<String> {
     let thorough = tier == "thorough";
     let mut v = Vec::new();
     let mut case = 0usize;
-    let rounds = if thorough { 60 } else { 3 };
+    let rounds = if thorough { 200 } else { 3 };
     for _ in 0..rounds { for &t in ELEMS { for &l in PREFIXES {
         let (sz, al) = elem_params(t);
         let wl = prefix_width(l);
